@@ -272,6 +272,11 @@ func readHTTPRequest(req *http.Request) (*FederationRequest, error) { // nolint:
 
 	result.fields.Method = req.Method
 	result.fields.RequestURI = req.URL.RequestURI()
+	if !utf8.ValidString(result.fields.RequestURI) {
+		// The signed object is JSON: invalid UTF-8 in it is silently replaced by
+		// U+FFFD, so URIs that differ in such bytes would share one signature.
+		return nil, fmt.Errorf("gomatrixserverlib: The request URI contained invalid UTF-8")
+	}
 
 	content, err := io.ReadAll(req.Body)
 	if err != nil {
